@@ -21,6 +21,7 @@ DECIDES += (' DG2 / DOM1: the rotation origin is evaluated at the start of the d
 
 INPLACE_FUNCS = ['operations.translate', 'operations.rotate', 'operations.scale', 'operations.transpose', 'operations.flip', 'operations.add_dimension']
 DECIDES += (' TR4: translate / scale on a real container of a B-spline and a rational curve, in place and on a copy: points moved exactly, weights kept, homogeneous points consistent, input untouched without inplace.')
+DECIDES += (' OWN2: two new objects share no container.')
 
 
 def site(fi, node=None):
